@@ -46,6 +46,9 @@ func c34Gen(r *core.Rand, tier string) any {
 	sc := &c34Scenario{Seed: r.Uint64()}
 	sc.Prim = []string{"cas", "mrsw", "mrsw", "rt"}[r.Intn(4)]
 	sc.Tasks = r.Range(2, 3)
+	if sc.Prim == "mrsw" && r.Bool(0.5) {
+		sc.Tasks = 3 // wake-up races need two waiters and a holder
+	}
 	sc.TickProb = []float64{0.02, 0.1, 0.3}[r.Intn(3)]
 	sc.Sticky = []float64{0, 0.4, 0.8}[r.Intn(3)]
 	n := r.Range(8, 30)
@@ -65,7 +68,7 @@ func c34Gen(r *core.Rand, tier string) any {
 				op.K = "owner"
 			}
 		case "mrsw":
-			op.K = []string{"rlock", "rlockb", "runlock", "wlock", "wlockb", "wunlock", "upgrade"}[r.Weighted([]int{20, 15, 25, 12, 10, 12, 6})]
+			op.K = []string{"rlock", "rlockb", "runlock", "wlock", "wlockb", "wunlock", "upgrade"}[r.Weighted([]int{18, 18, 24, 10, 14, 12, 6})]
 		case "rt":
 			switch r.Weighted([]int{35, 30, 10, 5, 10, 10}) {
 			case 0:
